@@ -23,9 +23,12 @@ func appendStackTrace(e *object.PanErr, src *ast.Source) *object.PanErr {
 	// append source info of src
 	out.WriteString(stackTrace)
 
-	e.StackTrace = out.String()
+	// NOTE: e may be shared (prop values, arr elems), so that
+	// the stack trace is set to a copy instead of e itself
+	copied := *e
+	copied.StackTrace = out.String()
 
-	return e
+	return &copied
 }
 
 func parseSrc(src *ast.Source) string {
